@@ -23,8 +23,9 @@ def _key(text):
             'interpreter on every event); _keygen and the keymaps are transcribed as layer I (KeyImpl) and TLC checks every pair of '
             'calls of every catalogue group under all 32 keymap configurations; TLC emits the catalogue, every group is materialised '
             'as a real function and run through real klepto caches and keygen, and TLC judges every recorded call (KeyTrace).',
-            '4 (C09/C10/C11, C17)', 'trusted: TLC, harness/key_driver.py; bounded catalogue (48 signature shapes, values {1,2,1.0,True,"a","x"}, '
-            '<=2 positionals, <=2 keywords); methods/partials not in the key catalogue',
+            '4 (C09/C10/C11, C17), 19', 'trusted: TLC, harness/key_driver.py; bounded catalogue (144 signature shapes incl. positional-only parameters, '
+            'values {1,2,1.0,True,"a","x","1",long string,tuple,object}, <=2 positionals, <=2 keywords; partials, methods, callable instances, '
+            'sibling functions; groups sampled above 300 calls)',
             'TLA+ transcription of binding + keygen, exhaustive pair check by TLC, catalogue replay + trace validation')
 
 
@@ -119,7 +120,7 @@ CLAIMED = {
             'emits the catalogue, every target is materialised as a real callable, every call is put to isvalid/validate/the '
             'interpreter, and TLC judges every recorded case (ValidTrace).', '4 (C19)',
             'trusted: TLC, harness/valid_checks.py; bounded catalogue (160 signature shapes x function/method/callable x partials '
-            'fixing <=3 positionals and <=2 keywords; calls with <=4 positionals and <=3 keywords); no positional-only parameters, '
+            'fixing <=3 positionals and <=2 keywords; calls with <=4 positionals and <=3 keywords); positional-only parameters and functools.wraps wrappers included, '
             'nested partials or builtins',
             'TLA+ transcription of Python binding + signature()/validate(), exhaustive catalogue check by TLC, catalogue replay + trace validation'),
     'C20': _cache('Clauses C20.*: a dill round trip yields equal contents/statistics/binding - also when the snapshot is taken by another thread while a call is in flight; lock-step continuation of original and copy; every call of a copy is judged like a call of the original (result, evaluations, statistics); independence; a copy that blocks is a violation; chained keymaps and archives with non-default settings.', '4 (C20), 17'),
